@@ -1,6 +1,6 @@
 (* LexTrees.v — the lexer reads the printed form of whole item trees back into
    their tokens, and the parser rebuilds the trees (C04, character level). *)
-From Secs Require Import Ast FloatProofs Fill Utf8 Msg WireSpec WireLemmas WireValues HeaderProofs WireEnc WireDec MsgProofs AstProofs FillProofs FillCompose PrintProofs.
+From Secs Require Import Ast FloatProofs FloatRound Fill Utf8 Msg WireSpec WireLemmas WireValues HeaderProofs WireEnc WireDec MsgProofs AstProofs FillProofs FillCompose PrintProofs.
 From Secs Require Import Lexer Parser SmlNumbers SmlProofs LexProofs ParseProofs LayoutProofs OffsetProofs TokenProofs AsciiTokens TokenTrees LexPrinted AsciiLex.
 Open Scope Z_scope.
 
@@ -17,19 +17,19 @@ Fixpoint lexable (t : item) : Prop :=
        match cs with
        | [] => True
        | c :: r => match c with
-                   | IVar n => sml_var n
+                   | IVar n => is_ellipsis n = false -> sml_var n
                    | IList _ | ILeaf _ _ _ | IAscii _ | IAsciiVar _ _ _ => lexable c
                    | _ => False
                    end /\ go r
        end) xs
-  | ILeaf k _ ys => Forall (slot_lexable k) ys
+  | ILeaf k w ys => Forall (slot_lexable alnum fl k w) ys
   | IAscii _ => True
   | IAsciiVar n _ _ => sml_var n
   | _ => False
   end.
 
 Definition child_lexable (c : item) : Prop :=
-  match c with IVar n => sml_var n | IList _ | ILeaf _ _ _ | IAscii _ | IAsciiVar _ _ _ => lexable c | _ => False end.
+  match c with IVar n => is_ellipsis n = false -> sml_var n | IList _ | ILeaf _ _ _ | IAscii _ | IAsciiVar _ _ _ => lexable c | _ => False end.
 
 Lemma lexable_children xs : lexable (IList xs) -> Forall child_lexable xs.
 Proof.
@@ -54,7 +54,7 @@ Qed.
 Definition item_lexes (t : item) : Prop := forall level r off,
   exists ts, lexes alnum LText (render fl (print_item_at level t) ++ r) off ts LText r
                (off + zlen (render fl (print_item_at level t))) /\
-             map zoff ts = item_tokens t.
+             map zoff ts = item_tokens fl t.
 
 (* the children of a list, each on its own line *)
 Definition child_pieces (level : nat) (c : item) : list piece :=
@@ -66,10 +66,10 @@ Definition child_pieces (level : nat) (c : item) : list piece :=
 
 (* an item that is not a list stands on its own line: indentation, the item at level 0, a line feed *)
 Lemma other_child level c cs r off : item_lexes c ->
-  child_pieces level c = PT (indent level ++ [x20; x20]) :: print_item_at 0 c ++ [PT [x0a]] -> child_tokens c = item_tokens c ->
+  child_pieces level c = PT (indent level ++ [x20; x20]) :: print_item_at 0 c ++ [PT [x0a]] -> child_tokens fl c = item_tokens fl c ->
   exists t1, lexes alnum LText (render fl (child_pieces level c) ++ (render fl (flat_map (child_pieces level) cs) ++ r)) off t1
                LText (render fl (flat_map (child_pieces level) cs) ++ r) (off + zlen (render fl (child_pieces level c))) /\
-             map zoff t1 = child_tokens c.
+             map zoff t1 = child_tokens fl c.
 Proof.
   intros Ic Ep Et. rewrite Ep, Et. rewrite render_cons, render_app, <- !app_assoc. rewrite (app_assoc (indent level) [x20; x20]).
   destruct (Ic 0%nat (render fl [PT [x0a]] ++ render fl (flat_map (child_pieces level) cs) ++ r)
@@ -86,7 +86,7 @@ Lemma lexes_children level : forall cs, Forall child_ok cs -> Forall child_lexab
   Forall (fun c => match c with IList _ | ILeaf _ _ _ | IAscii _ | IAsciiVar _ _ _ => item_lexes c | _ => True end) cs ->
   forall r off, exists ts, lexes alnum LText (render fl (flat_map (child_pieces level) cs) ++ r) off ts LText r
                              (off + zlen (render fl (flat_map (child_pieces level) cs))) /\
-                           map zoff ts = flat_map child_tokens cs.
+                           map zoff ts = flat_map (child_tokens fl) cs.
 Proof.
   induction cs as [|c cs IH]; intros Hok Hlx Hih r off.
   - exists []. split; [|reflexivity]. cbn [flat_map render app]. replace (off + zlen []) with off by (unfold zlen; cbn; lia). apply lexes_refl.
@@ -94,7 +94,7 @@ Proof.
     cbn [flat_map]. rewrite render_app, <- app_assoc.
     assert (Hone : exists t1, lexes alnum LText (render fl (child_pieces level c) ++ (render fl (flat_map (child_pieces level) cs) ++ r)) off t1
                      LText (render fl (flat_map (child_pieces level) cs) ++ r) (off + zlen (render fl (child_pieces level c))) /\
-                   map zoff t1 = child_tokens c).
+                   map zoff t1 = child_tokens fl c).
     { destruct c as [xs|n|k w ys|v|n mn mx|]; cbn [child_ok child_lexable] in Hc, Lc; try contradiction.
       - (* a nested list, then the line feed *)
         cbn [child_pieces]. rewrite render_app, <- app_assoc.
@@ -104,18 +104,30 @@ Proof.
         rewrite zlen_app. replace (off + (zlen (render fl (print_item_at (S level) (IList xs))) + zlen [x0a]))
           with (off + zlen (render fl (print_item_at (S level) (IList xs))) + 1) by (unfold zlen; cbn [length]; lia).
         apply lexes_skip. apply step_blank. reflexivity.
-      - (* a list variable on its line *)
-        cbn [child_pieces render flat_map]. rewrite Hc, app_nil_r, <- !app_assoc. cbn [app].
-        exists ([] ++ [mk TVariable n (off + Z.of_nat (length (indent level ++ [x20; x20])))] ++ []).
-        split; [|reflexivity].
-        change (indent level ++ x20 :: x20 :: n ++ x0a :: render fl (flat_map (child_pieces level) cs) ++ r)
-          with (indent level ++ [x20; x20] ++ n ++ x0a :: render fl (flat_map (child_pieces level) cs) ++ r).
-        rewrite app_assoc.
-        eapply lexes_trans; [apply lexes_ws; apply Forall_app; split; [apply indent_ws|repeat constructor]|].
-        eapply lexes_trans; [apply lexes_emit; apply (step_var alnum n x0a _ _ Lc); right; right; reflexivity|].
-        match goal with |- lexes _ _ _ ?a _ _ _ ?b => replace b with (a + 1) end.
-        + apply lexes_skip. apply step_blank. reflexivity.
-        + unfold zlen. rewrite !app_length. cbn [length]. rewrite !app_length. cbn [length]. lia.
+      - (* a list variable on its line: an ellipsis is printed as three dots, whatever its number *)
+        cbn [child_pieces render flat_map child_tokens]. destruct (is_ellipsis n) eqn:Eell.
+        + rewrite app_nil_r, <- !app_assoc. cbn [app].
+          exists ([] ++ [mk TEllipsis [x2e; x2e; x2e] (off + Z.of_nat (length (indent level ++ [x20; x20])))] ++ []).
+          split; [|reflexivity].
+          change (indent level ++ x20 :: x20 :: x2e :: x2e :: x2e :: x0a :: render fl (flat_map (child_pieces level) cs) ++ r)
+            with (indent level ++ [x20; x20] ++ [x2e; x2e; x2e] ++ x0a :: render fl (flat_map (child_pieces level) cs) ++ r).
+          rewrite app_assoc.
+          eapply lexes_trans; [apply lexes_ws; apply Forall_app; split; [apply indent_ws|repeat constructor]|].
+          eapply lexes_trans; [apply lexes_emit; cbn [app]; reflexivity|].
+          match goal with |- lexes _ _ _ ?a _ _ _ ?b => replace b with (a + 1) end.
+          * apply lexes_skip. apply step_blank. reflexivity.
+          * unfold zlen. rewrite ?app_length. cbn [length]. rewrite ?app_length. cbn [length]. lia.
+        + specialize (Lc eq_refl). rewrite app_nil_r, <- !app_assoc. cbn [app].
+          exists ([] ++ [mk TVariable n (off + Z.of_nat (length (indent level ++ [x20; x20])))] ++ []).
+          split; [|reflexivity].
+          change (indent level ++ x20 :: x20 :: n ++ x0a :: render fl (flat_map (child_pieces level) cs) ++ r)
+            with (indent level ++ [x20; x20] ++ n ++ x0a :: render fl (flat_map (child_pieces level) cs) ++ r).
+          rewrite app_assoc.
+          eapply lexes_trans; [apply lexes_ws; apply Forall_app; split; [apply indent_ws|repeat constructor]|].
+          eapply lexes_trans; [apply lexes_emit; apply (step_var alnum n x0a _ _ Lc); right; right; reflexivity|].
+          match goal with |- lexes _ _ _ ?a _ _ _ ?b => replace b with (a + 1) end.
+          * apply lexes_skip. apply step_blank. reflexivity.
+          * unfold zlen. rewrite ?app_length. cbn [length]. rewrite ?app_length. cbn [length]. lia.
       - (* a value item on its line *)
         apply (other_child level (ILeaf k w ys) cs r off Ic); reflexivity.
       - apply (other_child level (IAscii v) cs r off Ic); reflexivity.
@@ -156,10 +168,10 @@ Proof.
       assert (E : print_item_at level (IList xs) =
         PT (indent level ++ [x3c; x4c] ++ (if existsb is_list_var xs then [] else [x5b] ++ fmt_int (Z.of_nat (length xs)) ++ [x5d]) ++ [x0a])
         :: flat_map (child_pieces level) xs ++ [PT (indent level ++ [x3e])]) by (subst xs; reflexivity).
-      assert (Et : item_tokens (IList xs) =
+      assert (Et : item_tokens fl (IList xs) =
         [mk TLAB [x3c] 0; mk TItemType (B"L"%string) 0] ++
         (if existsb is_list_var xs then [] else [mk TItemSize ([x5b] ++ fmt_unsigned 10 (Z.of_nat (length xs)) ++ [x5d]) 0]) ++
-        flat_map child_tokens xs ++ [mk TRAB [x3e] 0]) by reflexivity.
+        flat_map (child_tokens fl) xs ++ [mk TRAB [x3e] 0]) by reflexivity.
       rewrite E, Et. clear E Et. rewrite render_cons, render_app. cbn [render flat_map]. rewrite app_nil_r.
       rewrite fmt_int_nat.
       set (body := render fl (flat_map (child_pieces level) xs)).
@@ -197,8 +209,8 @@ Proof.
            fold body. unfold zlen. repeat (cbn [length]; rewrite ?app_length). cbn [length]. lia.
         -- rewrite !map_app. cbn [map app]. rewrite Zb. reflexivity.
   - (* a value item *)
-    intros level r off. cbn [printable] in Hp. destruct Hp as (Hk & Hf & _). cbn [lexable] in Hl.
-    rewrite (print_leaf_text fl level k w ys Hk). apply (lexes_leaf alnum k w ys r off Hk Hf Hl).
+    intros level r off. cbn [printable] in Hp. destruct Hp as (Hf & _). cbn [lexable] in Hl.
+    rewrite (print_leaf_text fl level k w ys). apply (lexes_leaf alnum fl k w ys r off Hf Hl).
   - (* an ASCII item *)
     intros level r off.
     assert (Et : render fl (print_item_at level (IAscii v)) = ascii_text v).
@@ -218,17 +230,17 @@ End LexTrees.
 (* ---------- lexer and parser together ---------- *)
 
 (* tokens that differ from the printed item's tokens only in their offsets parse to the item *)
-Theorem item_parses_back_at_any_offsets floats t st ts more :
-  printable t -> (forall n, In n (vars t) -> known_name st n = false) ->
-  toks st = ts ++ more -> map zoff ts = item_tokens t ->
+Theorem item_parses_back_at_any_offsets floats fl t st ts more :
+  printable t -> scans floats fl t -> (forall n, In n (vars t) -> known_name st n = false) -> canon (ecount st) (vars t) ->
+  toks st = ts ++ more -> map zoff ts = item_tokens fl t ->
   exists st', parse_item floats (S (length (toks st))) st = (Some t, st') /\ toks st' = more /\ errs st' = errs st.
 Proof.
-  intros Hp Hfresh Ht Hz.
+  intros Hp Hsc Hfresh Hcan Ht Hz.
   pose (g := fun _ : token => 0).
   assert (Hg : g zero_tok = 0) by reflexivity.
-  assert (HtR : toks (R g st) = item_tokens t ++ map zoff more).
+  assert (HtR : toks (R g st) = item_tokens fl t ++ map zoff more).
   { unfold R. cbn [toks]. rewrite Ht, map_app. change (map (re g) ts) with (map zoff ts). rewrite Hz. reflexivity. }
-  destruct (item_parses_back floats t (R g st) (map zoff more) Hp Hfresh HtR) as [s1 [E1 [T1 [Ee1 _]]]].
+  destruct (item_parses_back floats fl t (R g st) (map zoff more) Hp Hsc Hfresh Hcan HtR) as [s1 [E1 [T1 [Ee1 _]]]].
   assert (Hlen : length (toks (R g st)) = length (toks st)) by (unfold R; cbn [toks]; apply map_length).
   rewrite Hlen in E1.
   rewrite (proj1 (parse_item_list_R g Hg floats (S (length (toks st)))) st) in E1.
@@ -252,46 +264,48 @@ Proof.
   - rewrite Hd in Hle. rewrite app_length in Hle. destruct d; [rewrite app_nil_r in Hd; exact Hd|cbn [length] in Hle; lia].
 Qed.
 
-(* a printed value item of a non-float format: the lexer reads its text into
-   tokens, whatever follows, and the parser rebuilds the item from them *)
+(* a printed value item: the lexer reads its text into tokens, whatever
+   follows, and the parser rebuilds the item from them *)
 Theorem print_lex_parse_leaf alnum floats fl level k w ys rest off :
-  printable (ILeaf k w ys) -> Forall (slot_lexable k) ys ->
+  printable (ILeaf k w ys) -> Forall (slot_scans floats fl k w) ys -> Forall (slot_lexable alnum fl k w) ys ->
   exists ts, lexes alnum LText (render fl (print_item_at level (ILeaf k w ys)) ++ rest) off ts LText rest
                (off + zlen (render fl (print_item_at level (ILeaf k w ys)))) /\
     forall st more, toks st = ts ++ more -> (forall n, In n (slot_vars ys) -> known_name st n = false) ->
       exists st', parse_item floats (S (length (toks st))) st = (Some (ILeaf k w ys), st') /\ toks st' = more /\ errs st' = errs st.
 Proof.
-  intros Hp Hl. pose proof Hp as Hp'. cbn [printable] in Hp'. destruct Hp' as (Hk & Hf & _).
-  rewrite (print_leaf_text fl level k w ys Hk).
-  destruct (lexes_leaf alnum k w ys rest off Hk Hf Hl) as [ts [L Z0]].
+  intros Hp Hsc Hl. pose proof Hp as Hp'. cbn [printable] in Hp'. destruct Hp' as (Hf & _).
+  rewrite (print_leaf_text fl level k w ys).
+  destruct (lexes_leaf alnum fl k w ys rest off Hf Hl) as [ts [L Z0]].
   exists ts. split; [exact L|]. intros st more Ht Hfresh.
-  apply (item_parses_back_at_any_offsets floats (ILeaf k w ys) st ts more Hp Hfresh Ht). exact Z0.
+  apply (item_parses_back_at_any_offsets floats fl (ILeaf k w ys) st ts more Hp Hsc Hfresh); [|exact Ht|exact Z0].
+  apply canon_no_ellipsis. cbn [printable] in Hp. destruct Hp as (_ & _ & _ & _ & _ & Hn). unfold names_ok in Hn.
+  apply andb_true_iff in Hn as [Hn _]. exact (proj2 (valid_names_plain _ Hn)).
 Qed.
 
 (* the same for whole item trees — lists of any size and nesting, list
-   variables, integer / unsigned / binary / boolean value items: the printed
+   variables, value items of every format, ASCII items and variables: the printed
    text, at any indentation and followed by anything, is lexed into tokens from
    which the parser rebuilds exactly the tree that was printed *)
 Theorem print_lex_parse_item alnum floats fl level t rest off :
-  printable t -> lexable t ->
+  printable t -> scans floats fl t -> lexable alnum fl t ->
   exists ts, lexes alnum LText (render fl (print_item_at level t) ++ rest) off ts LText rest
                (off + zlen (render fl (print_item_at level t))) /\
-    forall st more, toks st = ts ++ more -> (forall n, In n (vars t) -> known_name st n = false) ->
+    forall st more, toks st = ts ++ more -> (forall n, In n (vars t) -> known_name st n = false) -> canon (ecount st) (vars t) ->
       exists st', parse_item floats (S (length (toks st))) st = (Some t, st') /\ toks st' = more /\ errs st' = errs st.
 Proof.
-  intros Hp Hl. destruct (lexes_item alnum fl t Hp Hl level rest off) as [ts [L Z0]].
-  exists ts. split; [exact L|]. intros st more Ht Hfresh.
-  apply (item_parses_back_at_any_offsets floats t st ts more Hp Hfresh Ht Z0).
+  intros Hp Hsc Hl. destruct (lexes_item alnum fl t Hp Hl level rest off) as [ts [L Z0]].
+  exists ts. split; [exact L|]. intros st more Ht Hfresh Hcan.
+  apply (item_parses_back_at_any_offsets floats fl t st ts more Hp Hsc Hfresh Hcan Ht Z0).
 Qed.
 
 (* premises are satisfiable: a nested tree with values and variables *)
 Example print_lex_parse_example :
   let t := IList [ILeaf KUint 1 [SV 1; SX (B"x"%string)]; IVar (B"v"%string); IList [ILeaf KBool 1 [SV 1; SV 0]; ILeaf KInt 2 [SV (-7)]]] in
-  printable t /\ lexable t /\
+  (forall alnum fl, printable t /\ lexable alnum fl t) /\
   render (fun _ _ => []) (print_item t) = (B"<L" ++ [x0a] ++ B"  <U1[2] 1 x>" ++ [x0a] ++ B"  v" ++ [x0a] ++ B"  <L[2]" ++ [x0a] ++
                                             B"    <BOOLEAN[2] T F>" ++ [x0a] ++ B"    <I2[1] -7>" ++ [x0a] ++ B"  >" ++ [x0a] ++ B">")%string.
 Proof.
-  cbn [printable lexable]. split; [|split; [|reflexivity]].
+  split; [|reflexivity]. intros alnum fl. cbn [printable lexable]. split.
   - repeat split; try reflexivity; try discriminate; try (left; reflexivity); try (right; left; reflexivity); repeat constructor; cbn; lia.
   - repeat split; repeat constructor; try reflexivity; cbn; lia.
 Qed.
